@@ -10,5 +10,13 @@ class C02(Spec):
     level_text = "wip"
     assumptions = ()
 
+    def runs(self, tier, seed):
+        # run 0: differential (all roots recomputed by the Lean model) + cross-configuration predicate
+        # run 1: stale-memTree hunt, predicate only (control store vs test store on the real code)
+        return [dict(env={}), dict(env={"VERIF_C02_MODE": "hunt"}, nodrv=True)]
+
+    def drv_for(self, run):
+        return None if run.get("nodrv") else self.drv
+
 
 SPEC = C02()
